@@ -66,7 +66,9 @@ def check_type(name, T, values):
             elif kind == "mapping":
                 exp = {typelib.unmarshal(mem[0], k): typelib.unmarshal(mem[1], x) for k, x in w.items()}
             else:
-                kw = {f: typelib.unmarshal(h, w[f]) for f, h in mem.items()}
+                # (a dataclass field declared init=False is not a constructor argument)
+                no_init = {f.name for f in dataclasses.fields(T) if not f.init} if dataclasses.is_dataclass(T) else set()
+                kw = {f: typelib.unmarshal(h, w[f]) for f, h in mem.items() if f not in no_init}
                 exp = T(**kw)
             if not tp.same(got, exp):
                 out.append(f"unmarshal({name}, {w!r}) = {got!r}, rebuilt from member unmarshallers: {exp!r}")
